@@ -75,6 +75,25 @@ theorem C11_x64_rule_walk_truncation (rules : Nat → RuleX64) (hr : ∀ i, (rul
   · left; simp only [step, h]
   · right; exact ⟨a, (s.1 + 1, g), ha, by simp only [step, h]⟩
 
+/-- Instance: an aarch64 walk whose frames are unwound by arbitrary cached rules. -/
+theorem C11_a64_rule_walk_truncation (rules : Nat → RuleA64) (mem : Mem) (c n : Nat)
+    (regs : RegsA64) :
+    let step : Mem → (Nat × RegsA64) → Out (Nat × RegsA64) := fun m s =>
+      match execA64 (rules s.1) (s.1 == 0) s.2 m with
+      | .ret r g => .ret r (s.1 + 1, g)
+      | .panic p => .panic p
+    walkWith step (cutMem c mem) n (0, regs) = walkWith step mem n (0, regs) ∨
+      ∃ k a, a ≥ c ∧
+        walkWith step (cutMem c mem) n (0, regs) =
+          (walkWith step mem n (0, regs)).take k ++ [.err (.couldNotReadStack a)] ∧
+        ∀ r ∈ (walkWith step mem n (0, regs)).take k, IsFrame r := by
+  intro step
+  apply walk_trunc
+  intro s
+  rcases execA64_trunc c (rules s.1) (s.1 == 0) s.2 mem with h | ⟨a, g, ha, h⟩
+  · left; simp only [step, h]
+  · right; exact ⟨a, (s.1 + 1, g), ha, by simp only [step, h]⟩
+
 /-- On the uncacheable paths a null return address is end of stack too (`with_cache`). -/
 theorem C11_uncacheable_null_is_end_of_stack : resOfRa 0 = .done ∧ ∀ ra, ra ≠ 0 → resOfRa ra = .frame ra := by
   refine ⟨rfl, fun ra h => by simp [resOfRa, h]⟩
